@@ -683,7 +683,11 @@ func (f *Fn) Given(text string, val bool) *Fn {
 		})
 	}
 	if n == 0 {
-		undecided("%s: assumption %q occurs in no branch condition (condition vanished)", f.Name, text)
+		// The guard the rule instance was confirmed against is gone: like a vanished event this is
+		// a change of the protocol's shape, reported as a failed obligation (the rules that follow
+		// run without the assumption).
+		f.C.Fail("guard", f.Where(), "branch on `"+text+"` exists", f.P.Pos(f.Body.Pos()),
+			"no branch condition of "+f.Name+" mentions `"+text+"` any more: the guarded structure the rules were confirmed against has changed")
 	}
 	// stability: each assumed variable has at most one assignment (its definition)
 	for _, v := range vars {
